@@ -509,8 +509,12 @@ def explicit_routing(a):
     r = a.req('RouteRequest', field('name', 1, 'string'), field('table', 2, 'string'), field('app', 3, Q('Shelf')))
     a.rpc(method('Route', r, Q('Book'), http=('post', '/v1/{name=shelves/*}:route', '*'),
                  routing=[('name', ''), ('table', '{table_location=regions/*}/**'), ('app.name', '{routing_id=**}'),
-                          ('table', '{routing_id=projects/*}/**'), ('name', 'shelves/*/{book_id=books/*}'),
-                          ('name', 'shelves/*/books/{leaf_id=*}/pages/*')]))
+                          ('table', '{routing_id=projects/*}/**')]))
+    # templates with literal segments before / after the named segment, one parameter per method
+    a.rpc(method('RoutePrefixed', r, Q('Book'), http=('post', '/v1/{name=shelves/*}:routep', '*'),
+                 routing=[('table', 'shelves/*/{book_id=books/*}')]),
+          method('RouteInfix', r, Q('Book'), http=('post', '/v1/{name=shelves/*}:routei', '*'),
+                 routing=[('table', 'shelves/*/books/{leaf_id=*}/pages/*')]))
 
 
 @edit
